@@ -86,6 +86,10 @@ def main():
         out.append('| `%s` | %s | %s | %s | %s |' % (os.path.basename(d), m.get('property', ''), needs,
                                                  '; '.join(res).replace('|', '/'), '; '.join(what).replace('|', '/').replace('\n', ' ')))
     out.append('')
+    out += ['## 12. Repairs made to /repo (generated from props/fixed.json)', '']
+    for line in json.load(open(os.path.join(V, 'props', 'fixed.json'))):
+        out.append('- `' + line.replace('`', "'") + '`')
+    out.append('')
     p = os.path.join(V, 'DESIGN.md')
     s = open(p).read()
     if MARK in s:
